@@ -7,6 +7,7 @@ values of each group."""
 import itertools
 import math
 
+import numpy as np
 from hypothesis import strategies as st
 
 from tracklib.core import ENUCoords, Bbox
@@ -41,6 +42,19 @@ ASSUMPTIONS = [
     "and re-created the summarised feature; each observation contributes its own value of the NAMED feature "
     "(Track.getObsAnalyticalFeature); a requested feature that some track lacks is the documented AnalyticalFeatureError "
     "(not generated)",
+    "consecutive fixes of a track may be exact duplicates or lie 1e-6 .. 9e-5 apart (less than the 1e-4 below which "
+    "ENUCoords.__eq__ calls two positions equal) on either side of, or on, an inner cell border or corner, and the whole "
+    "picture may be given in small units (resolutions and extents x 1e-3 / 1e-5 / 1e-6, whole collections inside 1e-4): "
+    "every fix still belongs to the cell whose footprint contains it - the cell Raster.getCell returns for that fix alone, "
+    "which is checked against the footprint (absolute tolerance as above, 1e-9 for data below 1)",
+    "numeric type of the feature values handed to createAnalyticalFeature / to the cell operators: Python float (first version), "
+    "Python int for integer-valued numbers, numpy float64 / float32 / float16 / longdouble scalars, NaN held in that type "
+    "included, per track and per feature (operators: per list or per value); every generated value is exactly representable "
+    "in its type (checked; otherwise undef). An aggregate may come back as a numpy scalar; it is compared by value. "
+    "numpy adds / divides float32 / float16 scalars in that precision, so for cells holding such values sum, mean and median are "
+    "demanded to n x eps(type) x sum|v| (the error bound of a sequential evaluation in the type; eps = 2^-23 / 2^-10) instead of "
+    "1e-12 - the generated values are exactly summable, so in effect only the rounding of the mean's division is tolerated; "
+    "count, minimum, maximum stay exact",
 ]
 
 
@@ -72,13 +86,45 @@ def _agg_key(op, values, got):
     return "agg-%s-wrong" % op
 
 
-def _check_value(op, values, got, where):
+# numeric type in which a feature value is handed to tracklib.  The case holds plain numbers (or NaN) that are exactly
+# representable in the type; 'float' = the number as the case holds it (Python float, a few Python ints), 'int' = integer-valued
+# numbers as Python int (NaN stays a float NaN, there is no integer NaN), the others numpy scalars - NaN included
+TYPES = {"float": None, "int": None, "float64": np.float64, "float32": np.float32, "float16": np.float16,
+         "longdouble": np.longdouble}
+TYPE_EPS = {"float32": 2.0 ** -23, "float16": 2.0 ** -10}      # arithmetic among such values is done by numpy in that precision
+
+
+def _cast(v, typ):
+    """the value as tracklib gets it, or None when the type cannot hold it exactly"""
+    if typ == "float":
+        return v
+    if typ == "int":
+        return v if isnan(float(v)) or math.isinf(float(v)) else gen.as_int_if_integral(v)
+    out = TYPES[typ](v)
+    return out if same(float(out), float(v)) else None
+
+
+def _type_eps(types):
+    return max([TYPE_EPS.get(t, 0.0) for t in types] or [0.0])
+
+
+def _check_value(op, values, got, where, types=()):
     exp = ref_aggregates(values)[op]
-    if isinstance(got, bool) or not isinstance(got, (int, float)):
+    if isinstance(got, (bool, np.bool_)) or not isinstance(got, (int, float, np.integer, np.floating)):
         raise Violation("agg-%s-wrong" % op, "%s: %s gives %r (not a number) for values %r" % (where, op, got, values))
-    ok = same(got, exp) if op == "co_count" else close(got, exp, rel=1e-12, abs_=1e-12)
+    got_f = float(got)
+    eps = _type_eps(types)
+    extra = 0.0
+    if eps and op in ("co_sum", "co_avg", "co_median"):
+        # values of a narrow numpy type are added / divided in that type: the aggregate is demanded to the precision of
+        # a sequential evaluation in that type (all generated data are exactly summable, so this only matters for the mean)
+        v = [abs(float(x)) for x in values if not isnan(float(x))]
+        n, S = len(v), math.fsum(v)
+        extra = {"co_sum": n * eps * S, "co_avg": (n + 1) * eps * S / max(n, 1), "co_median": eps * S}[op]
+    ok = same(got_f, exp) if op == "co_count" else close(got_f, exp, rel=1e-12, abs_=1e-12 + extra)
     if not ok:
-        raise Violation(_agg_key(op, values, got), "%s: %s over %r is %r, expected %r" % (where, op, values, got, exp))
+        tnote = " handed over as %s" % sorted(set(types)) if any(t != "float" for t in types) else ""
+        raise Violation(_agg_key(op, values, got_f), "%s: %s over %r%s is %r, expected %r" % (where, op, values, tnote, got, exp))
 
 
 # ----------------------------------------------------------------------------------------------
@@ -144,9 +190,14 @@ _CFG = st.tuples(st.sampled_from(RES), st.sampled_from([None] * 4 + RES), st.sam
 _COORD = st.one_of(st.integers(0, 383), st.floats(0, 1))        # coded lattice position | fraction of the extent
 
 
-def _decode_cfg(cfg):
+UNITS = [1, 1, 1, 1, 1e-3, 1e-5, 1e-6]                          # the same picture in metres (as before) / mm / 10 um / um
+
+
+def _decode_cfg(cfg, unit=1):
     rx, ry, m, kx, ex, ky, ey, ox, oy = cfg
     ry = rx if ry is None else ry
+    if unit != 1:
+        rx, ry, ox, oy = rx * unit, ry * unit, ox * unit, oy * unit
     W = (kx + ex) * rx if kx + ex > 0 else rx
     H = (ky + ey) * ry if ky + ey > 0 else ry
     return rx, ry, m, W, H, ox, oy
@@ -193,11 +244,29 @@ def _perm(items, code):
     return out
 
 
+# consecutive near-duplicate fixes (a receiver standing still / creeping): fix i+1 of the scatter order := fix i + (dx, dy),
+# fix i itself first moved by (sx, sy) off its lattice position (so the two can straddle a cell border or corner on which fix i
+# was generated, or sit on it).  All offsets are below the 1e-4 of ENUCoords.__eq__; 0 = exact duplicate in that axis
+_OFF = [0, 1e-6, 3e-6, 1e-5, 3e-5, 5e-5, 9e-5]
+OFFSETS = [0.0] + [sg * o for o in _OFF[1:] for sg in (1, -1)]
+FTYPES = ["float64", "float32", "float32", "float16", "longdouble", "int"]
+GTYPES = ["float64", "float32", "float32", "longdouble"]       # the values of 'g' (1000 + k/4) do not fit float16
+
+
 def _decode_collection(t):
-    (cfg, pts, anchors, nanmode, cuts), (perm, drop, recompute, lay, gmaps) = t
-    case = _decode_collection0((cfg, pts, anchors, nanmode, cuts))
+    (cfg, pts, anchors, nanmode, cuts), (perm, drop, recompute, lay, gmaps), (twins, unit, tmode, tcodes) = t
+    case = _decode_collection0((cfg, pts, anchors, nanmode, cuts), twins, unit)
     ntr = len(case["tracks"])
-    layouts = [LAYOUTS[lay[k] % len(LAYOUTS)] for k in range(ntr)]
+    layouts = [dict(LAYOUTS[lay[k] % len(LAYOUTS)]) for k in range(ntr)]
+    for k, l in enumerate(layouts):
+        if tmode == 1:                                           # one numeric type for the whole collection
+            l["ftype"], l["gtype"] = FTYPES[tcodes[0] % len(FTYPES)], GTYPES[tcodes[0] % len(GTYPES)]
+        elif tmode == 2:                                         # per track / per feature; Python floats stay frequent
+            cf, cg = tcodes[k] % (len(FTYPES) + 2), (tcodes[k] // 8) % (len(GTYPES) + 2)
+            if cf < len(FTYPES):
+                l["ftype"] = FTYPES[cf]
+            if cg < len(GTYPES):
+                l["gtype"] = GTYPES[cg]
     req = [r for i, r in enumerate(BASE_REQ) if not (drop >> i) & 1 or r[0] == "uid"]
     if gmaps and all("g" in l["create"] for l in layouts):
         req = req + G_REQ[:gmaps]
@@ -207,9 +276,13 @@ def _decode_collection(t):
     return case
 
 
-def _decode_collection0(t):
+def _clamp(v, hi):
+    return min(max(v, 0.0), hi)
+
+
+def _decode_collection0(t, twins=(), unit=1):
     cfg, pts, anchors, nanmode, cuts = t
-    rx, ry, m, W, H, ox, oy = _decode_cfg(cfg)
+    rx, ry, m, W, H, ox, oy = _decode_cfg(cfg, unit)
     n = len(pts)
     bx, cx = _candidates(W, rx, m)
     by, cy = _candidates(H, ry, m)
@@ -217,8 +290,19 @@ def _decode_collection0(t):
     vs = [_offset(p[1], H, by, cy) for p in pts]
     i0, di, j0, dj = anchors
     i0, j0 = i0 % n, j0 % n
-    us[i0], us[(i0 + 1 + di % (n - 1)) % n] = 0.0, W            # the bounding box is exactly [ox, ox+W] x [oy, oy+H]
-    vs[j0], vs[(j0 + 1 + dj % (n - 1)) % n] = 0.0, H
+    i1, j1 = (i0 + 1 + di % (n - 1)) % n, (j0 + 1 + dj % (n - 1)) % n
+    us[i0], us[i1] = 0.0, W                                      # the bounding box is exactly [ox, ox+W] x [oy, oy+H]
+    vs[j0], vs[j1] = 0.0, H
+    for (ic, sx, sy, dx, dy) in twins:
+        i = ic % (n - 1)
+        if i + 1 in (i0, i1, j0, j1):
+            continue                                             # the follower would lose an anchor of the bounding box
+        if i not in (i0, i1):
+            us[i] = _clamp(us[i] + OFFSETS[sx], W)
+        if i not in (j0, j1):
+            vs[i] = _clamp(vs[i] + OFFSETS[sy], H)
+        us[i + 1] = _clamp(us[i] + OFFSETS[dx], W)
+        vs[i + 1] = _clamp(vs[i] + OFFSETS[dy], H)
     table = _VAL_BY_MODE[nanmode]
     fs = [table[p[2] % len(table)] for p in pts]
     cuts = sorted(set(1 + c % (n - 1) for c in cuts))
@@ -234,7 +318,12 @@ def strat_collection():
     # feature layout of each track, maps of a second feature
     var = st.tuples(st.integers(0, 3628799), st.sampled_from([0, 0, 0, 1, 2, 4, 8, 16, 32, 6, 24, 33, 30, 62]),
                     st.sampled_from([0, 0, 0, 1, 1, 2]), st.tuples(*[st.integers(0, len(LAYOUTS) - 1)] * 4), st.sampled_from([0, 0, 1, 2, 3]))
-    return st.tuples(geo, var).map(_decode_collection)
+    # consecutive near-duplicate fixes, unit of the coordinates, numeric type of the feature values
+    off = st.integers(0, len(OFFSETS) - 1)
+    twin = st.tuples(st.integers(0, 10), off, off, off, off)
+    inp = st.tuples(st.lists(twin, max_size=3), st.sampled_from(UNITS), st.sampled_from([0, 0, 1, 1, 2, 2]),
+                    st.tuples(*[st.integers(0, 63)] * 4))
+    return st.tuples(geo, var, inp).map(_decode_collection)
 
 
 DEFAULT_REQ = [["f", n] for n, _ in OPS] + [["uid", "co_count"]]
@@ -265,15 +354,21 @@ def body_summarize(case):
     for k, pts in enumerate(case["tracks"]):
         t = gen.make_track([(p[0], p[1]) for p in pts])
         vals = _feature_values(pts, len(fixes))
+        typ = {"f": layouts[k].get("ftype", "float"), "g": layouts[k].get("gtype", "float"), "h": "float"}
+        if typ["f"] not in TYPES or typ["g"] not in TYPES:
+            return {"undef": True}
+        handed = {name: [_cast(v, typ[name]) for v in vals[name]] for name in vals}
+        if any(v is None for name in handed for v in handed[name]):
+            return {"undef": True}                               # a value the numeric type cannot hold exactly
         for name in layouts[k]["create"]:
-            t.createAnalyticalFeature(name, list(vals[name]))
+            t.createAnalyticalFeature(name, list(handed[name]))
         if layouts[k].get("recreate"):                           # remove + re-create: 'f' moves behind the other features
             t.removeAnalyticalFeature("f")
-            t.createAnalyticalFeature("f", list(vals["f"]))
+            t.createAnalyticalFeature("f", list(handed["f"]))
         t.uid = k + 1
         trks.append(t)
         for j, p in enumerate(pts):
-            fixes.append((p[0], p[1], {"f": vals["f"][j], "g": vals["g"][j]}))
+            fixes.append((p[0], p[1], {"f": vals["f"][j], "g": vals["g"][j]}, {"f": typ["f"], "g": typ["g"]}, k))
     xs, ys = [p[0] for p in fixes], [p[1] for p in fixes]
     if not (max(xs) > min(xs) and max(ys) > min(ys)):
         return {"undef": True}                                   # degenerate bounding box: no grid is defined
@@ -283,9 +378,11 @@ def body_summarize(case):
 
     groups = {}
     nbx = nby = ncorner = 0
-    for x, y, f in fixes:
+    cells = []
+    for x, y, f, ty, k in fixes:
         col, row, bx, by = _check_cell(raster, x, y)
-        groups.setdefault((row, col), []).append(f)
+        groups.setdefault((row, col), []).append((f, ty))
+        cells.append((row, col))
         nbx += bx
         nby += by
         ncorner += bx and by
@@ -301,8 +398,8 @@ def body_summarize(case):
                 v.msg, names, layouts, rnd + 1))
 
     ncells = raster.nrow * raster.ncol
-    multi = [[f["f"] for f in v] for v in groups.values() if len(v) >= 2]
-    allf = [[f["f"] for f in v] for v in groups.values()]
+    multi = [[f["f"] for f, _ in v] for v in groups.values() if len(v) >= 2]
+    allf = [[f["f"] for f, _ in v] for v in groups.values()]
     cls = ["cells-1" if ncells == 1 else "cells-2..8" if ncells <= 8 else "cells-9+",
            "square" if res[0] == res[1] else "nonsquare",
            "margin-0" if m == 0 else "margin>0"]
@@ -349,6 +446,37 @@ def body_summarize(case):
         cls.append("feature-removed-and-recreated")
     if any("h" in l["create"] for l in layouts):
         cls.append("unrelated-feature-present")
+    # consecutive fixes of one track closer than 1e-4 (what ENUCoords.__eq__ calls equal) in both axes
+    for a in range(len(fixes) - 1):
+        fa, fb = fixes[a], fixes[a + 1]
+        if fa[4] != fb[4] or not (abs(fa[0] - fb[0]) < 1e-4 and abs(fa[1] - fb[1]) < 1e-4):
+            continue
+        if fa[0] == fb[0] and fa[1] == fb[1]:
+            cls.append("consecutive-fixes-exact-duplicates")
+            continue
+        cls.append("consecutive-fixes-within-1e-4")
+        if cells[a] != cells[a + 1]:
+            dr, dc = cells[a][0] != cells[a + 1][0], cells[a][1] != cells[a + 1][1]
+            cls.append("consecutive-fixes-within-1e-4-in-different-cells")
+            cls.append("consecutive-fixes-within-1e-4-across-a-" + ("corner" if dr and dc else "row-border" if dr else "column-border"))
+    if max(xs) - min(xs) < 1e-4 and max(ys) - min(ys) < 1e-4:
+        cls.append("whole-collection-within-1e-4")
+        if len(groups) > 1:
+            cls.append("whole-collection-within-1e-4,several-cells-occupied")
+    cls.append("unit-1" if min(res) >= 0.3 else "unit-small(res<0.01)" if max(res) < 0.01 else "unit-other")
+    # numeric type of the feature values
+    ftypes = set(f[3]["f"] for f in fixes)
+    for t in sorted(ftypes):
+        cls.append("f-values-as-" + t)
+    if len(ftypes) > 1:
+        cls.append("f-values-of-several-types")
+    for t in sorted(ftypes - {"float", "int"}):
+        if any(f[3]["f"] == t and isnan(float(f[2]["f"])) for f in fixes):
+            cls.append("nan-held-as-" + t)
+    if any(r[0] == "g" for r in req):
+        for t in sorted(set(f[3]["g"] for f in fixes) - {"float"}):
+            cls.append("g-values-as-" + t)
+    cls = sorted(set(cls))
     return {"nt": ncells > 1 and bool(multi), "cls": cls}
 
 
@@ -388,7 +516,8 @@ def _judge_maps(raster, req, names, groups, fixes):
                 raise Violation("cell-count-wrong", "%s holds %r observations, %d fixes lie in its footprint" % (where, got, len(members)))
             for af, op in req:
                 if af != "uid":
-                    _check_value(op, [f[af] for f in members], grids[af + "#" + op][r][c], where + " feature '%s'" % af)
+                    _check_value(op, [f[af] for f, _ in members], grids[af + "#" + op][r][c], where + " feature '%s'" % af,
+                                 [ty[af] for _, ty in members])
 
 
 # ----------------------------------------------------------------------------------------------
@@ -413,7 +542,8 @@ def body_getcell(case):
         ncorner += bx and by
         nouter += x in (raster.xmin, raster.xmax) or y in (raster.ymin, raster.ymax)
     cls = ["margin-0" if case["margin"] == 0 else "margin>0",
-           "square" if case["res"][0] == case["res"][1] else "nonsquare"]
+           "square" if case["res"][0] == case["res"][1] else "nonsquare",
+           "unit-1" if min(case["res"]) >= 0.3 else "unit-small(res<0.01)" if max(case["res"]) < 0.01 else "unit-other"]
     if nb:
         cls.append("border-query")
     if ncorner:
@@ -441,8 +571,8 @@ def enum_getcell(tier):
 
 
 def _decode_getcell(t):
-    cfg, qs = t
-    rx, ry, m, W, H, ox, oy = _decode_cfg(cfg)
+    cfg, qs, unit = t
+    rx, ry, m, W, H, ox, oy = _decode_cfg(cfg, unit)
     bx, cx = _candidates(W, rx, m)
     by, cy = _candidates(H, ry, m)
     return {"ll": [ox, oy], "ur": [ox + W, oy + H], "res": [rx, ry], "margin": m,
@@ -450,18 +580,25 @@ def _decode_getcell(t):
 
 
 def strat_getcell():
-    return st.tuples(_CFG, st.lists(st.tuples(_COORD, _COORD), min_size=1, max_size=16)).map(_decode_getcell)
+    return st.tuples(_CFG, st.lists(st.tuples(_COORD, _COORD), min_size=1, max_size=16), st.sampled_from(UNITS)).map(_decode_getcell)
 
 
 # ----------------------------------------------------------------------------------------------
 # (iii) the six cell operators called directly
 def body_operators(case):
     values = case["values"]
+    types = case.get("types") or "float"                         # one numeric type for the list, or one per value
+    types = [types] * len(values) if isinstance(types, str) else list(types)
+    if len(types) != len(values) or any(t not in TYPES for t in types):
+        return {"undef": True}
+    handed = [_cast(v, t) for v, t in zip(values, types)]
+    if any(v is None for v in handed):
+        return {"undef": True}                                   # a value the numeric type cannot hold exactly
     for op, f in OPS:
-        got = f(list(values))
-        if isinstance(got, float) and got != got:
+        got = f(list(handed))
+        if isinstance(got, (float, np.floating)) and got != got:
             got = NO_DATA_VALUE                                  # what Raster.computeAggregates stores for NaN
-        _check_value(op, values, got, "direct call")
+        _check_value(op, values, got, "direct call", types)
     fl = [float(x) for x in values]
     nn = [x for x in fl if not isnan(x)]
     cls = ["len-%s" % (len(fl) if len(fl) < 3 else "3+")]
@@ -475,19 +612,40 @@ def body_operators(case):
         cls.append("ties")
     if nn and len(nn) % 2 == 0:
         cls.append("even-median")
+    for t in sorted(set(types)):
+        cls.append("values-as-" + t)
+        if t not in ("float", "int") and any(isnan(x) and tt == t for x, tt in zip(fl, types)):
+            cls.append("nan-held-as-" + t)
+    if len(set(types)) > 1:
+        cls.append("values-of-several-types")
     return {"nt": len(fl) >= 2, "cls": cls}
 
 
 def enum_operators(tier):
     alphabet = [NAN, -1, 0.5, 2.0]
-    for n in range(0, 6 if tier == "quick" else 8):
-        for t in itertools.product(alphabet, repeat=n):
-            yield {"values": list(t)}
+    for typ in ("float", "float32", "float64", "float16", "longdouble", "int"):
+        for n in range(0, (6 if typ in ("float", "float32") else 5) if tier == "quick" else 8):
+            for t in itertools.product(alphabet, repeat=n):
+                yield {"values": list(t), "types": typ} if typ != "float" else {"values": list(t)}
+
+
+_OPTYPES = ["float", "float", "float64", "float32", "float32", "float16", "longdouble", "int"]
+
+
+def _decode_operators(t):
+    vals, mode, code = t
+    case = {"values": [v for v, _ in vals]}
+    if mode == 1:                                                # one numeric type for the whole list
+        case["types"] = _OPTYPES[code % len(_OPTYPES)]
+    elif mode == 2:                                              # one per value
+        case["types"] = [_OPTYPES[c % len(_OPTYPES)] for _, c in vals]
+    return case
 
 
 def strat_operators():
     v = st.one_of(st.sampled_from(_VAL_BY_MODE[1]), st.integers(-1000, 1000).map(lambda k: k * 0.125))
-    return st.lists(v, max_size=14).map(lambda l: {"values": l})
+    return st.tuples(st.lists(st.tuples(v, st.integers(0, 63)), max_size=14), st.sampled_from([0, 1, 1, 2]),
+                     st.integers(0, 63)).map(_decode_operators)
 
 
 RULE = ("summarize: Hypothesis collections of 1..4 tracks / 2..12 fixes whose bounding box is exactly [ox,ox+W]x[oy,oy+H] "
@@ -496,14 +654,21 @@ RULE = ("summarize: Hypothesis collections of 1..4 tracks / 2..12 fixes whose bo
         "quarter-lattice numbers or NaN; the requested maps are a subset of the six aggregates of 'f' + uid count (+ 0..3 aggregates "
         "of a second feature 'g' when every track owns it) in ANY order (every permutation reachable; code 0 = the fixed order of "
         "the first version), 0..2 further computeAggregates() calls each followed by the complete judgement, and a feature "
-        "layout per track out of 10 (creation orders of f / g / unrelated h, f removed and re-created). Non-trivial: grid has more than one cell and "
+        "layout per track out of 10 (creation orders of f / g / unrelated h, f removed and re-created); 0..3 'twins' (fix i moved by "
+        "(sx, sy) off its generated border / corner / centre position, fix i+1 := fix i + (dx, dy), all offsets from {0, +-1e-6, +-3e-6, "
+        "+-1e-5, +-3e-5, +-5e-5, +-9e-5}, clamped to the bounding box, anchors of the bounding box kept); unit of the picture "
+        "{1 (4 in 7), 1e-3, 1e-5, 1e-6} applied to resolutions, extents and origin; numeric type of the feature values: all Python "
+        "float (1 in 3), one type for the collection (1 in 3), per track and feature (1 in 3) out of float64 / float32 / "
+        "float16 / longdouble / int. Non-trivial: grid has more than one cell and "
         "some cell receives two or more fixes. getcell: every half-cell lattice point of the data bounding box for a product of "
         "small grid configurations (enumerated) + generated queries; non-trivial: a query on a cell border. operators: every "
-        "list of length <= 5 (quick) / 7 (thorough) over {NaN,-1,0.5,2} + generated lists up to 14 values; non-trivial: two or "
+        "list of length <= 5 (quick) / 7 (thorough) over {NaN,-1,0.5,2}, handed over as Python floats and as float32 (further types: "
+        "length <= 4 / 7) + generated lists up to 14 values with one numeric type per list or per value; getcell queries also in "
+        "small units; non-trivial: two or "
         "more values. Distinct = hash of the case.")
 
 SUBCHECKS = [
-    SubCheck("summarize", body_summarize, strategy=strat_collection, quick=20000, thorough=600000, qshards=10,
+    SubCheck("summarize", body_summarize, strategy=strat_collection, quick=17000, thorough=600000, qshards=10,
              rule="collections through summarize(): footprint of every fix, conservation, requested aggregates per cell in any "
                   "request order, per-track feature layouts, aggregates recomputed"),
     SubCheck("getcell", body_getcell, strategy=strat_getcell, enum=enum_getcell, quick=8000, thorough=200000, qshards=4,
